@@ -35,6 +35,26 @@ var hostileArgs = []string{
 	``,
 }
 
+// hostileJunk are JSON tokens of the wrong type or shape for the slot they are put into.
+var hostileJunk = []string{`7`, `0`, `-1`, `12`, `1.5`, `1e9`, `true`, `null`, `""`, `"a"`, `"~"`, `"1.2.3.4~"`, `"~1.2.3.4"`, `{}`, `[]`, `[[]]`,
+	`"192.168.1.2~192.168.1.2~192.168.1.3"`, `"192.168.1.2/24"`, `" 192.168.1.2 "`, `"192.168.1.2~192.168.1"`, `"::1"`, `"::1~::2"`, `{"ip":7}`}
+
+var hostileArgTemplates = []string{
+	`{"request_ip_range":[[%s]]}`, `{"request_ip_range":[%s]}`, `{"request_ip_range":%s}`, `{"request_ip_range":[["192.168.1.2",%s]]}`,
+	`{"request_ip_range":[["192.168.1.2"],[%s]]}`, `{"common":{"ipinfos":[%s]}}`, `{"common":%s}`, `{"common":{"ipinfos":%s}}`,
+	`{"common":{"ipinfos":[{"ip":%s,"vlan":0,"gateway":"192.168.1.1"}]}}`, `{"common":{"ipinfos":[{"ip":"192.168.1.2/24","vlan":%s,"gateway":"192.168.1.1"}]}}`,
+	`{"common":{"ipinfos":[{"ip":"192.168.1.2/24","vlan":0,"gateway":%s}]}}`, `%s`,
+}
+
+// hostileArg is a value for the args annotation: half of the time from the fixed catalogue, otherwise a template with a
+// token of the wrong type or shape in one slot (numbers, booleans, null, objects, arrays, malformed range strings).
+func hostileArg(c interface{ Choose(int) int }) string {
+	if c.Choose(2) == 0 {
+		return hostileArgs[c.Choose(len(hostileArgs))]
+	}
+	return fmt.Sprintf(hostileArgTemplates[c.Choose(len(hostileArgTemplates))], hostileJunk[c.Choose(len(hostileJunk))])
+}
+
 var hostileOwners = [][]metav1.OwnerReference{
 	nil,
 	{{Kind: "", Name: ""}},
@@ -58,7 +78,7 @@ func (w *World) opHostilePod() {
 	}
 	ann := map[string]string{}
 	if c.Prob(3, 4) {
-		ann[annArgs] = pick(c, hostileArgs)
+		ann[annArgs] = hostileArg(c)
 	}
 	switch c.Choose(5) {
 	case 0:
